@@ -153,3 +153,24 @@ Theorem C05_spec_phase_invariant_unit : forall (spec : list Q) (evs : list bd_ev
   leq (snd (bd_run spec evs)) spec.
 Proof. exact spec_phase_invariant_unit. Qed.
 Print Assumptions C05_spec_phase_invariant_unit.
+
+(** A bubble/dew point is only returned from an outer iteration after which the two phases were not a trivial
+    solution (the test runs after every iteration, whatever the size of the error). *)
+Theorem C05_bd_outer_nontrivial : forall (tol : Q) (steps : list (Q * bool)) (s : Q * bool),
+  bd_outer tol steps = BdConverged s -> In s steps /\ snd s = false /\ fst s < tol.
+Proof. exact bd_outer_nontrivial. Qed.
+Print Assumptions C05_bd_outer_nontrivial.
+
+Theorem C05_bd_outer_all_nontrivial : forall (tol : Q) (steps : list (Q * bool)) (s : Q * bool),
+  bd_outer tol steps = BdConverged s ->
+  exists pre post, steps = pre ++ s :: post /\ Forall (fun q => snd q = false) pre.
+Proof. exact bd_outer_all_nontrivial. Qed.
+Print Assumptions C05_bd_outer_all_nontrivial.
+
+(** The specified phase is returned as liquid() by a bubble point and as vapor() by a dew point, whatever the
+    densities of the two phases. *)
+Theorem C05_bd_result_spec_slot : forall (A : Type) (bubble : bool) (state1 state2 : A),
+  (bubble = true -> snd (bd_result bubble state1 state2) = state1) /\
+  (bubble = false -> fst (bd_result bubble state1 state2) = state1).
+Proof. exact @bd_result_spec_slot. Qed.
+Print Assumptions C05_bd_result_spec_slot.
